@@ -235,6 +235,11 @@ EvalBound ==
   Ghost => \A l \in P.lines :
       g.evals[l] <= g.enq[l] * (1 + Distinct(g.waited[l])) + g.loads[l]
 
+(* how often a line may legitimately be scheduled: once per request of its form, once if requested explicitly, once on     *)
+(* first demand, and once more when its form is discovered through this very (required) line                             *)
+Sched(l) == 2 + CountIn(P.request, C.formOf[l]) + CountIn(P.fieldNames, l)
+EnqBound == Ghost /\ s.pc # "abort" => \A l \in P.lines : g.enq[l] <= Sched(l)
+
 LoadBound == Ghost => \A l \in P.lines : g.loads[l] <= Cardinality(DOMAIN C.base)
 
 NoRepeatWait ==
